@@ -3,6 +3,7 @@ CONSTANT MaxReg = 3
 CONSTANT MaxUnreg = 1
 CONSTANT MaxLen = 6
 CONSTANT MaxGen = 0
+CONSTANT Negative = FALSE
 CONSTANT Narrow = FALSE
 CONSTANT Rich = TRUE
 INVARIANT Report
